@@ -152,6 +152,30 @@ def NDArray.appendChecked (a : NDArray V) (cnt : Idx) (axis : Nat) (vals : List 
     | .ok c => (c, .ok ())
     | .error e => (match b.setExtent a.shape with | .ok c => (c, .error e) | .error _ => (b, .error e))
 
+/-! ### typed transfers of one value / of a vector the library sizes (the templates of include/nix/DataSet.hpp over Hydra)
+
+The count the library works with is derived: a single value is ONE element — `data_traits<T>::resize` accepts an empty count or a
+count of one element, an empty count then stands for ones (one per dimension of the data set), never for "all of it" (fix fce2435);
+`getData(value, offset)` / `setData(value, offset)` use one per offset entry (one per dimension when the offset is empty too); a
+`std::vector` is resized to the last count entry above 1 (`InvalidRank` when there are two, `std::out_of_range` for an empty count). -/
+
+def typedCount (how : String) (rank : Nat) (cnt off : Idx) : Except Err Idx :=
+  if how == "rd3" then
+    (if !(cnt.isEmpty || prod cnt == 1) then .error .invalidRank else .ok (if cnt.isEmpty then List.replicate rank 1 else cnt))
+  else if how == "vec" then
+    (if cnt.isEmpty then .error .stdOutOfRange else if (cnt.filter (· > 1)).length > 1 then .error .invalidRank else .ok cnt)
+  else .ok (if off.isEmpty then List.replicate rank 1 else List.replicate off.length 1)
+
+/-- the last count entry above 1 -/
+def lastBig : List Nat → Option Nat
+  | [] => none
+  | x :: xs => match lastBig xs with
+    | some y => some y
+    | none => if x > 1 then some x else none
+
+/-- the size `data_traits<std::vector<T>>::resize` gives the vector: the last entry above 1, the first entry when there is none -/
+def vecSize (cnt : Idx) : Nat := (lastBig cnt).getD (cnt.headD 0)
+
 /-! ### DataView -/
 
 structure View where
